@@ -34,8 +34,8 @@ class Chooser:
         self.points.append((label, n, a)); return a
 
 class Gen:
-    def __init__(self, schema: Schema, seed=0, max_depth=6, skip_ctors=()):
-        self.s = schema; self.seed = seed; self.max_depth = max_depth; self.counter = 0; self.skip_ctors = set(skip_ctors)
+    def __init__(self, schema: Schema, seed=0, max_depth=6, skip_ctors=(), max_dict=3):
+        self.s = schema; self.seed = seed; self.max_depth = max_depth; self.counter = 0; self.skip_ctors = set(skip_ctors); self.max_dict = max_dict
     def fill(self, n):
         """distinguishable default value of n bits"""
         self.counter += 1
@@ -167,6 +167,7 @@ class Gen:
     def gen_hashmap(self, head, args, b, env, ch, path, depth):
         s = self.s; n = s.nat(args[0], env); X = args[1]; Y = args[2] if 'Aug' in head else None
         sizes = [1, 0, 2, 3] if head.endswith('E') else [1, 2, 3]
+        sizes = [x for x in sizes if x <= self.max_dict]
         if depth >= self.max_depth: sizes = sizes[:2] if head.endswith('E') else sizes[:1]
         size = sizes[ch.choose(path + '/dictsize', len(sizes))]
         keys = sorted({(self.fill(n) if i else (self.fill(n) >> 1)) ^ ((i & 1) << (n - 1) if n else 0) for i in range(size)}) if n else [0][:size]
